@@ -73,6 +73,8 @@ def c17_random(rng, n):
     alpha = [b"a", b"b", b" ", b"ab", b",", b"\t", b"\xc3\xa4", b"aa", b"x", b"\n"]
     def rs(maxlen, alph=alpha):
         k = rng.choice([0, 1, 2, 3, 5, 8, 13, 40]) if maxlen > 8 else rng.randint(0, maxlen)
+        if maxlen >= 40 and rng.random() < 0.02:
+            maxlen = k = rng.choice([127, 128, 255, 256, 257, 300, 1000])     # lengths and positions kept in narrow integers
         return b"".join(rng.choice(alph) for _ in range(min(k, maxlen)))
     cases = []
     for _ in range(n):
